@@ -39,6 +39,7 @@ POOL = [
     ["str", "d:a"], ["str", "d:b"], ["str", "d:c"], ["str", "d:d"], ["str", "p0"],
     ["dict", [[["frozenset", [["int", "1"]]], ["str", "a"]], [["frozenset", [["int", "2"]]], ["str", "b"]]]],
     ["list", [["list", []], ["tuple", []]]], ["int", str(2 ** 63)], ["float", "nan"],
+    ["bytes", "6162"], ["bytes", "6162"], ["bytes", "000102"], ["str", "ab"], ["list", [["bytes", "6162"], ["bytes", "6162"]]],
 ]
 
 
@@ -93,6 +94,13 @@ def specs(draw, max_steps=25, server=True):
                 src = draw(st.sampled_from(bank))
                 vals = list(src["vals"])
                 cand = [i for i, v in enumerate(vals) if v != "DEFAULT"]
+                if len(cand) >= 2 and draw(st.integers(0, 4)) == 0:
+                    # the same value bound to two parameters (equal objects, shared or distinct - see step["share"])
+                    i, j = draw(st.lists(st.sampled_from(cand), min_size=2, max_size=2, unique=True))
+                    vals[j] = vals[i] if family_of(vals[i]) is None else draw(st.sampled_from([vals[i], ["bytes", "6162"]]))
+                    vals[i] = vals[j]
+                    bank.append({"vals": vals, "xpos": src["xpos"], "xkw": src["xkw"]})
+                    continue
                 if len(cand) >= 2 and draw(st.integers(0, 3)) == 0:
                     # the same values bound to other parameters
                     i, j = draw(st.lists(st.sampled_from(cand), min_size=2, max_size=2, unique=True))
@@ -136,6 +144,8 @@ def specs(draw, max_steps=25, server=True):
             step["npos"] = draw(st.integers(0, 5))
             step["spell_defaults"] = draw(st.booleans())
             step["perm"] = draw(st.integers(0, 1000))
+            # equal str/bytes leaves of the call's arguments are ONE object (True) or distinct objects (False)
+            step["share"] = draw(st.booleans())
             # different values for ignored parameters
             step["ign_alt"] = draw(st.one_of(st.none(), value_specs()))
         steps.append(step)
@@ -281,8 +291,11 @@ def run(spec, scratch, server=None):
                     rec["skipped"] = "partial-not-on-server"
                     continue
             plain = m.plain(fi, carrier)
-            args = [V.build(a, perm_seed=step["perm"]) for a in a_specs]
-            kwargs = {k: V.build(v, perm_seed=step["perm"]) for k, v in k_specs.items()}
+            shared = {}
+            share = bool(step.get("share"))
+            args = [V.build(a, perm_seed=step["perm"], share_leaves=share, fresh_strings=not share, shared=shared) for a in a_specs]
+            kwargs = {k: V.build(v, perm_seed=step["perm"], share_leaves=share, fresh_strings=not share, shared=shared)
+                      for k, v in k_specs.items()}
             # the undecorated function itself says what the call means (and whether Python accepts it):
             # it returns (name, canonical form of its bound, non-ignored arguments)
             try:
@@ -302,7 +315,7 @@ def run(spec, scratch, server=None):
                 continue
             rec["key"] = [step["carrier"], expected[0], expected[1]]
             rec["expected"] = list(expected)
-            rec["spelling"] = [len(args), sorted(kwargs), step["perm"], json.dumps(a_specs) + json.dumps(k_specs, sort_keys=True)]
+            rec["spelling"] = [len(args), sorted(kwargs), step["perm"], json.dumps(a_specs) + json.dumps(k_specs, sort_keys=True) + str(share)]
             wrapped = m.cached(fi, step["carrier"])
             before = len(MF.EXEC_LOG)
             try:
